@@ -37,7 +37,8 @@ INPUTS = {
     'utf16': b'\xff\xfe' + 'int  a ;\n'.encode('utf-16-le'),
 }
 MODES = {'replace': lambda n: ['--replace', n], 'no_backup': lambda n: ['--no-backup', n], 'f_o_same': lambda n: ['-f', n, '-o', n],
-         'replace_mtime': lambda n: ['--replace', '--mtime', n], 'replace_ifc': lambda n: ['--replace', '--if-changed', n]}
+         'replace_mtime': lambda n: ['--replace', '--mtime', n], 'replace_ifc': lambda n: ['--replace', '--if-changed', n],
+         'no_backup_ifc': lambda n: ['--no-backup', '--if-changed', n]}
 NAME = 'src.c'
 
 
@@ -118,7 +119,7 @@ def check_state(d, orig, formatted, mode, res, fault, call, fails, sig, rep):
         fails.append((dict(sig, relation='path-neither-original-nor-formatted'),
                       dict(rep, got_len=len(got), orig_len=len(orig), fmt_len=None if formatted is None else len(formatted),
                            got_head=core.preview(got, 120))))
-    if mode not in ('no_backup',) and got != orig:
+    if mode not in ('no_backup', 'no_backup_ifc') and got != orig:
         b = os.path.join(d, NAME + '.unc-backup~')
         bb = run.read(b) if os.path.exists(b) else None
         if bb != orig:
@@ -270,6 +271,11 @@ def main(ctx):
                 if not thorough and (i, p) in (('large', 'prior'), ('fails', 'prior')):
                     continue
                 cs.append((m, i, p, thorough))
+    if not thorough:
+        # --if-changed takes another path to the output file: the small / large changing inputs in the quick tier as well
+        for m in ('replace_ifc', 'no_backup_ifc'):
+            for i in ('small', 'large'):
+                cs.append((m, i, 'none', thorough))
     tasks = []
     for res in core.pmap(_plan, cs):
         if isinstance(res, dict):        # worker exception
